@@ -79,6 +79,9 @@ def scn_progress(p, res):
     for (r, q, construct), it in sorted(an.report.items.items(), key=lambda kv: (kv[0][1], kv[0][2])):
         if r != 'SCN-PROGRESS':
             continue
+        if it.get('undecided'):
+            res.undecided('%s: %s' % (q[6:], construct), 'the displacement of the cursor on a path to the back edge is not known to the cursor domain (callback or computed move): progress is not decided')
+            continue
         res.bad(F('SCN-PROGRESS', it['func'], it['node'], construct, it['message'], details=['path : ' + it['trace']]))
     n = 0
     for (q, lid), info in sorted(an.loops.items()):
